@@ -25,7 +25,7 @@ import ast
 import sys
 
 EXITS = (ast.Return, ast.Break, ast.Continue)
-BUILTINS = {"abs", "max", "min", "range", "len", "int", "bool"}
+BUILTINS = {"abs", "max", "min", "range", "len", "int", "bool", "ValueError", "KeyError", "TypeError"}
 
 
 class Unsupported(Exception):
@@ -141,6 +141,10 @@ class Static:
             elif isinstance(st, ast.Return):
                 if st.value is not None:
                     self._check_expr(st.value)
+            elif isinstance(st, ast.Raise):
+                if st.cause is not None or not isinstance(st.exc, ast.Call) or self.call_kind(st.exc) != "builtin":
+                    raise Unsupported("raise shape")
+                self._check_expr(st.exc)
             elif isinstance(st, ast.Expr):
                 self._check_expr(st.value)
             elif isinstance(st, ast.Global):
@@ -331,11 +335,15 @@ class Monitor:
 
     # -- driver
     def record(self, fn, args=(), counter=None, offsets=False):
-        """Run ``fn(*args)``; returns (result, events, executed (code key, offset) set or None)."""
+        """Run ``fn(*args)``; returns (("ok", value) | ("raise", exception type), events, executed (code key, offset)
+        set or None).  Frames left by an exception have no "ret" event."""
         self.events, self.stack, self.nframes, self.counter = [], [], 0, counter
         self.offsets = set() if offsets else None
         try:
-            res = fn(*args)
+            try:
+                res = ("ok", fn(*args))
+            except Exception as e:  # noqa: BLE001
+                res = ("raise", type(e))
         finally:
             events, offs = self.events, self.offsets
             self.events, self.counter, self.offsets = None, None, None
@@ -366,9 +374,12 @@ class LineEvent:
 
 
 class DepGraph:
-    def __init__(self, static: Static, events: list, prefix: "DepGraph | None" = None):
-        """``prefix``: the graph of the import (module-level definitions of globals)."""
+    def __init__(self, static: Static, events: list, prefix: "DepGraph | None" = None, raised: bool = False):
+        """``prefix``: the graph of the import (module-level definitions of globals); ``raised``: the run ended
+        with an exception (frames without return, lines left half-way)."""
         self.static = static
+        self.raised = raised
+        self.raise_node = None
         self.lastdef: dict = dict(prefix.lastdef) if prefix else {}
         self.line_events: list[LineEvent] = []  # in order of events
         self.by_frame: dict[int, list[LineEvent]] = {}
@@ -432,6 +443,8 @@ class DepGraph:
                 return
             # the value of a corpus call is the value of the callee's return statement
             idx = le.calls.index(e)
+            if idx >= len(le.children):
+                return  # the line was left by an exception before this call happened
             callee = le.children[idx]
             if kind == "class":
                 self._last(("G", e.func.id), out)
@@ -592,8 +605,8 @@ class DepGraph:
             self.line_events.append(le)
             self.event_of_index[idx] = le
             current[fr] = le
-        for le in list(current.values()):
-            self._complete(le)
+        for fr in sorted(current, reverse=True):  # innermost frame first (an exception left them open)
+            self._complete(current[fr])
 
     @staticmethod
     def _in_loop(line, loop):
@@ -607,6 +620,8 @@ class DepGraph:
             return [stmt.iter]
         if isinstance(stmt, (ast.Assign, ast.AugAssign, ast.Return, ast.Expr)):
             return [stmt.value]
+        if isinstance(stmt, ast.Raise):
+            return [stmt.exc]
         return []
 
     def _define(self, key, kind, line, frame, event, deps):
@@ -621,7 +636,7 @@ class DepGraph:
         if le.pending is None:
             return
         stmt, snap = le.pending
-        if len(le.children) != len(le.calls) and not isinstance(stmt, ast.ClassDef):
+        if len(le.children) != len(le.calls) and not isinstance(stmt, ast.ClassDef) and not self.raised:
             raise Unsupported(f"line {le.line}: {len(le.calls)} corpus calls but {len(le.children)} callee frames")
         fr, line, ev = le.frame, le.line, le.x.event
         new: list[tuple] = []  # definitions take effect after all uses of the line were read
@@ -719,6 +734,11 @@ class DepGraph:
             self._uses(le, stmt.value, snap, deps)
             le.r = node("R", deps)
             le.r.elts = self._elts(le, stmt.value, snap)
+        elif isinstance(stmt, ast.Raise):
+            deps = []
+            self._uses(le, stmt.exc, snap, deps)
+            le.r = node("R", deps)
+            self.raise_node = le.r
         elif isinstance(stmt, (ast.FunctionDef, ast.ClassDef)):
             d = node("D", [])
             le.defs["name", stmt.name] = d
